@@ -1,4 +1,5 @@
 import TensorModel.Proofs.Kernels
+import TensorModel.Proofs.MinMax
 /-!
   C07 — option modes: safe is pure; `UseUnsafe` / `WithReuse` / `WithIncr` write only their destination.
   Property theorems only; helper lemmas live in `TensorModel/Proofs/Kernels.lean`
@@ -63,6 +64,23 @@ theorem unsafe_writes_only_a (st : St) (op : String) (a b : Dense)
     (by simpa using hk) hia hib hord hne hlen hcap hA hB
   exact ⟨_, h, rfl, w.sem2 hA.has hB.has⟩
 
+/-- **`MinBetween` / `MaxBetween` with `UseUnsafe()`** (finding F11, repaired: no result tensor is allocated when the
+    call is to work in place), raw path: the elementwise minimum / maximum overwrites the window of `a` and `a` itself
+    is returned; `b`, the rest of `a`'s buffer, every other buffer and the mask heap are unchanged. -/
+theorem minmax_unsafe_writes_only_a (st : St) (op : String) (a b : Dense)
+    (hsh : shapeEq a.shape b.shape = true) (hdt : a.dt = b.dt) (hot : a.dt ∈ ordTypes)
+    (hia : a.requiresIterator = false) (hib : b.requiresIterator = false) (hord : sameOrd a b = true)
+    (hne : a.win.buf ≠ b.win.buf) (hlen : a.win.len = b.win.len) (hcap : a.win.len ≤ b.win.cap)
+    (hA : InBuf st a.win.buf a.win.off a.win.len) (hB : InBuf st b.win.buf b.win.off a.win.len) :
+    ∃ out, engMMVV st op a b { unsafe_ := true } = .ok out ∧ out.ret = .a ∧ out.reuse = none ∧
+      out.st.mheap = st.mheap ∧
+      (∀ i, i < a.win.len → ∃ x y, cell st a.win.buf (a.win.off + i) = some x ∧
+        cell st b.win.buf (b.win.off + i) = some y ∧
+        cell out.st a.win.buf (a.win.off + i) = some (.app2 op x y)) ∧
+      (∀ b' k, (b' ≠ a.win.buf ∨ k < a.win.off ∨ a.win.off + a.win.len ≤ k) → cell out.st b' k = cell st b' k) := by
+  obtain ⟨st', h, w⟩ := engMMVV_unsafe' st op a b ⟨by simpa using hot, hdt, hsh⟩ hia hib hord hne hlen hcap hA hB
+  exact ⟨_, h, rfl, rfl, Writes.sem2 (F := fun x y => .app2 op x y) w hA.has hB.has⟩
+
 /-! ## reuse -/
 
 /-- `WithReuse(r)`, raw path (`E.OpRecv`): the result is written to the window of `r` (and `r` is
@@ -89,8 +107,8 @@ theorem reuse_writes_only_reuse (st : St) (op : String) (a b r : Dense)
 
 /-! ## incr -/
 
-/-- `WithIncr(r)`, raw path, non-scalar operands: `r[i] = r[i] + (a[i] op b[i])`; only `r`'s window is
-    written. (For two length-one operands see `TM.C06.eOpIncr_scalars_overwrite_operand`, finding F32.) -/
+/-- `WithIncr(r)`, raw path, operands of more than one element: `r[i] = r[i] + (a[i] op b[i])`; only `r`'s window is
+    written. (Two length-one operands: `incr_writes_only_incr_one` below.) -/
 theorem incr_writes_only_incr (st : St) (op : String) (a b r : Dense)
     (hsh : shapeEq a.shape b.shape = true) (hdt : a.dt = b.dt) (hnum : a.dt ∈ numberTypes)
     (hk : a.dt ∈ kernelTypes op)
@@ -110,6 +128,30 @@ theorem incr_writes_only_incr (st : St) (op : String) (a b r : Dense)
   obtain ⟨st', h, w⟩ := engArithVV_incr_raw' st op numberTypes a b r (binOK a b hsh hdt hnum)
     (by simpa using hk) hia hib hir hord hr hna hnb hla hlb hcb hcr hA hB hR
   exact ⟨_, h, rfl, rfl, Writes.sem3 (F := fun acc x y => accAdd acc (vecFn op a.dt x y)) w hR.has hA.has hB.has⟩
+
+/-- **`WithIncr(r)` with two one-element operands** (finding F32, repaired; the case `incr_writes_only_incr` leaves out —
+    together they cover every operand length on the raw path): every cell of `r` receives `+ (a[0] op b[0])`, `r` is
+    returned, and no cell outside `r`'s window changes — the operands are not written. No hypothesis separates the
+    three tensors: the increment may be an operand. -/
+theorem incr_writes_only_incr_one (st : St) (op : String) (a b r : Dense)
+    (hsh : shapeEq a.shape b.shape = true) (hdt : a.dt = b.dt) (hnum : a.dt ∈ numberTypes)
+    (hk : a.dt ∈ kernelTypes op) (hir : r.requiresIterator = false)
+    (hord : sameOrd a b = true) (hr : ReuseFits r a.shape a.dt a.ap.o.col)
+    (hla : a.win.len = 1) (hlb : b.win.len = 1)
+    (hA : InBuf st a.win.buf a.win.off 1) (hB : InBuf st b.win.buf b.win.off 1)
+    (hR : InBuf st r.win.buf r.win.off r.win.len) :
+    ∃ out x y, engArithVV st op numberTypes a b { incr := some r } = .ok out ∧ out.ret = .reuse ∧
+      out.reuse = some r ∧ out.st.mheap = st.mheap ∧
+      cell st a.win.buf a.win.off = some x ∧ cell st b.win.buf b.win.off = some y ∧
+      (∀ i, i < r.win.len → ∃ acc, cell st r.win.buf (r.win.off + i) = some acc ∧
+        cell out.st r.win.buf (r.win.off + i) = some (accAdd acc (vecFn op a.dt x y))) ∧
+      (∀ b' k, (b' ≠ r.win.buf ∨ k < r.win.off ∨ r.win.off + r.win.len ≤ k) → cell out.st b' k = cell st b' k) := by
+  obtain ⟨st', h, w⟩ := engArithVV_incr_raw_one' st op numberTypes a b r (binOK a b hsh hdt hnum)
+    (by simpa using hk) hir hord hr hla hlb hA hB hR
+  refine ⟨_, _, _, h, rfl, rfl, w.mheap, cell_some_cellD (by simpa using hA.has 0 (by omega)),
+    cell_some_cellD (by simpa using hB.has 0 (by omega)), ?_, w.frame⟩
+  intro i hi
+  exact ⟨_, cell_some_cellD (hR.has i hi), w.val i hi⟩
 
 /-! ## reuse on the iterator path (finding F10) -/
 
@@ -225,10 +267,23 @@ example := safe_is_pure_iter st "add" tT tb (by decide) rfl (by decide) (by deci
   (by decide) (by decide) (by decide) (by decide) inA inB
 example := unsafe_writes_only_a st "add" ta tb (by decide) rfl (by decide) (by decide) (by decide) (by decide)
   (by decide) (by decide) rfl (by decide) inA inB
+example := minmax_unsafe_writes_only_a st "minb" ta tb (by decide) rfl (by decide) (by decide) (by decide) (by decide)
+  (by decide) rfl (by decide) inA inB
+/-- the former witness of F11 (`mmb minb fn $0 $1 unsafe`) runs: cell 0 of `a` holds `minb a[0] b[0]` -/
+example : ∃ out, engMMVV st "minb" ta tb { unsafe_ := true } = .ok out ∧
+    cell out.st 0 0 = some (.app2 "minb" (.src 0 0) (.src 1 0)) := ⟨_, rfl, rfl⟩
 example := reuse_writes_only_reuse st "add" ta tb tr (by decide) rfl (by decide) (by decide) (by decide) (by decide)
   (by decide) (by decide) fits (by decide) (by decide) (by decide) (by decide) inA inB inR
 example := incr_writes_only_incr st "add" ta tb tr (by decide) rfl (by decide) (by decide) (by decide) (by decide)
   (by decide) (by decide) fits (by decide) (by decide) (by decide) (by decide) (by decide) (by decide) inA inB inR
+-- one-element operands (the witness shape of F32): the increment receives the sum, the operands stay
+def st1 : St := { heap := #[#[.src 0 0], #[.src 1 0], #[.src 2 0]] }
+def t1 (b : Nat) : Dense := { ap := { shape := [1], strides := [1] }, win := ⟨b, 0, 1, 1⟩, dt := "c128" }
+example := incr_writes_only_incr_one st1 "add" (t1 0) (t1 1) (t1 2) (by decide) rfl (by decide) (by decide) (by decide)
+  (by decide) ⟨rfl, by decide, by decide, rfl⟩ rfl rfl ⟨_, rfl, by decide⟩ ⟨_, rfl, by decide⟩ ⟨_, rfl, by decide⟩
+example : ∃ out, engArithVV st1 "add" numberTypes (t1 0) (t1 1) { incr := some (t1 2) } = .ok out ∧
+    cell out.st 0 0 = some (.src 0 0) ∧ cell out.st 2 0 = some (.app2 "add" (.src 2 0) (.app2 "add" (.src 0 0) (.src 1 0))) :=
+  ⟨_, rfl, rfl, rfl⟩
 example := reuse_iter_model st "add" tT tb tr (by decide) rfl (by decide) (by decide) (by decide) rfl rfl rfl
   ⟨rfl, by decide, by decide, rfl⟩
 example := reuse_iter_partial st "add" tT tb tr (by decide) rfl (by decide) (by decide) (by decide) rfl rfl rfl
